@@ -1,0 +1,14 @@
+// SPDX-FileCopyrightText: 2026 The Pion community <https://pion.ly>
+// SPDX-License-Identifier: MIT
+
+//go:build !verif
+
+// Package verifhook provides verification hook points. Without the "verif"
+// build tag every function is an empty, inlinable no-op.
+package verifhook
+
+// Yield marks a scheduling point for the deterministic simulator.
+func Yield(string) {}
+
+// Note reports an internal ordering event to the deterministic simulator.
+func Note(string, any) {}
